@@ -147,7 +147,7 @@ def rule_map(c: Ctx) -> RuleResult:
                 ds = [n_ for n_ in own_nodes(f.node) if isinstance(n_, ast.Assign) and any(isinstance(t, ast.Name) and t.id == v0.id for t in n_.targets)]
                 if len(ds) == 1 and isinstance(ds[0].value, ast.List) and len(ds[0].value.elts) == 2:
                     val, stmt_for_vn = ds[0].value, ds[0]
-                    if isinstance(stmt.value, ast.Name) and v0.id not in aliases:
+                    if isinstance(getattr(stmt, "value", None), ast.Name) and v0.id not in aliases:
                         aliases = aliases + [v0.id]          # `m = [a, 0]; token.map = m`: the list itself, patched through m
             if not (isinstance(val, ast.List) and len(val.elts) == 2):
                 # a map copied from another token's map / a name bound to a checked list is fine; anything else is not decidable
